@@ -17,9 +17,15 @@ void* realloc(void* p, size_t n)
                 __CPROVER_assert(__CPROVER_POINTER_OFFSET(p) == 0, "realloc stub: pointer is the start of an allocation");
                 __CPROVER_assert(old <= KV_REALLOC_MAX, "realloc stub: old object within KV_REALLOC_MAX");
                 k = old < n ? old : n;
+#if KV_REALLOC_MAX > 48
+                for(i = 0; i < 128; i++){  /* shapes that re-allocate a longer buffer define KV_REALLOC_MAX (<= 128) */
+                        if(i < k){ q[i] = ((char*)p)[i]; }
+                }
+#else
                 for(i = 0; i < 48; i++){   /* == KV_REALLOC_MAX, literal so that the driver bounds this loop by itself */
                         if(i < k){ q[i] = ((char*)p)[i]; }
                 }
+#endif
                 free(p);
         }
         return q;
